@@ -6,7 +6,7 @@ for line in open(sys.argv[1]):
     m = re.match(r'SEEDED diff=(\S+) check=(\S+) exit=(\d+) violations=(\d+)', line)
     if not m: continue
     diff, check, code, nv = m.groups()
-    mm = re.search(r'/(C\d+)-out/(m\d+)\.diff', diff) or re.search(r'seeded/(C\d+)-(m\d+)/patch', diff)
+    mm = re.search(r'/(C\d+)-out/(m\d+)\.diff', diff) or re.search(r'seeded/(C\d+)-((?:r\d+)?m\d+)/patch', diff)
     sid = f'{mm.group(1)}-{mm.group(2)}'
     p = f'/verif/seeded/{sid}/meta.json'
     meta = json.load(open(p))
